@@ -20,6 +20,9 @@ func Run(c *hx.Ctx) {
 	if len(c.Args) >= 3 && c.Args[0] == "smchild" {
 		smChild(c.Args[1], c.Args[2]) // never returns
 	}
+	if len(c.Args) >= 5 && c.Args[0] == "upchild" {
+		upChild(c.Args[1:]) // never returns
+	}
 	only := ""
 	if len(c.Args) >= 2 && c.Args[0] == "only" {
 		only = c.Args[1]
@@ -37,6 +40,11 @@ func Run(c *hx.Ctx) {
 		}
 		for i := 0; i < c.N(50, 170); i++ {
 			runLS(c, genLS(c))
+		}
+	}
+	if only == "" || only == "up" {
+		for i := 0; i < c.N(6, 12); i++ {
+			runUP(c, genUP(c, i))
 		}
 	}
 	if only == "one" { // debugging aid: one scenario given as proto stage phase idle bg drain hold
